@@ -7,6 +7,8 @@ CONSTANTS
   StaleTimeout = FALSE
   StaleLists = FALSE
   ThresholdBefore = TRUE
+  ProbeCheckUpdated = TRUE
+  QuotaErrors = FALSE
   InitStates = {"Queued"}
   B <- BSmall
   MaxHist = 0
